@@ -269,8 +269,10 @@ func runC11(seed int64, n int, dir string, tier string) *Report {
 			c := fmt.Sprintf("(HUnchanged %s %s %s %s)", ob.before.Coq(), coqVals(ob.opsBefore), ob.after.Coq(), coqVals(ob.opsAfter))
 			if len(cf.Items) < 12*n {
 				cf.Add(c)
+				rep.NoteCase(op.name+c[:min(len(c), 4000)], len(ob.before.Cells) >= 12, in)
+			} else {
+				rep.NoteInput(op.name+c[:min(len(c), 4000)], len(ob.before.Cells) >= 12, in)
 			}
-			rep.NoteCase(op.name+c[:min(len(c), 4000)], len(ob.before.Cells) >= 12, in)
 		}
 	}
 	// ---- race-detector build: the same operations, concurrently, on one shared document ----------
@@ -356,8 +358,10 @@ func runC12(seed int64, n int, dir string, tier string) *Report {
 			}
 			if len(cf.Items) < 6*n {
 				cf.Add(c)
+				rep.NoteCase(op.name+c[:min(len(c), 4000)], len(ob.after.Reach(ob.results...)) >= 8, in)
+			} else {
+				rep.NoteInput(op.name+c[:min(len(c), 4000)], len(ob.after.Reach(ob.results...)) >= 8, in)
 			}
-			rep.NoteCase(op.name+c[:min(len(c), 4000)], len(ob.after.Reach(ob.results...)) >= 8, in)
 		}
 		// equality of copies
 		nl := g.NodeList(gen.Shape{MaxNodes: 3, MaxEdges: 3, WellFormed: true, Richness: 0.8})
